@@ -14,4 +14,4 @@ FILES="/repo/cmd/ow-sim/main.go /repo/cmd/ow-sim/running.go /repo/cmd/ow-sim/sim
   -add /repo/cmd/ow-sim=/verif/.build/rw/owsim_zz_verif_main.go $FILES || exit 2
 RACE="-race"
 [ "$OWSIM_NORACE" = 1 ] && RACE=""
-go build $RACE -overlay .build/rw/owsim/overlay.json -o .build/owsim-check github.com/flowmatters/openwater-core/cmd/ow-sim || { echo "instrumented ow-sim build failed" >&2; exit 2; }
+go build -ldflags '-X owverif.local/verif/vrt.Instrumented=yes' $RACE -overlay .build/rw/owsim/overlay.json -o .build/owsim-check github.com/flowmatters/openwater-core/cmd/ow-sim || { echo "instrumented ow-sim build failed" >&2; exit 2; }
